@@ -47,7 +47,7 @@ pub fn guard<T>(f: impl FnOnce() -> T) -> Result<T, String> {
 pub fn fnv64(b: &[u8]) -> u64 { let mut h = 0xcbf29ce484222325u64; for &x in b { h ^= x as u64; h = h.wrapping_mul(0x100000001b3); } h ^ (h >> 29) }
 
 #[derive(Default)]
-struct SubStat { evaluations: u64, nontrivial: u64, classes: BTreeMap<String, u64>, samples: Vec<Value>, exhaustive: Option<bool>, space: Option<String>, replayed: u64, kind: &'static str, excluded_known: u64 }
+struct SubStat { wall_s: f64, evaluations: u64, nontrivial: u64, classes: BTreeMap<String, u64>, samples: Vec<Value>, exhaustive: Option<bool>, space: Option<String>, replayed: u64, kind: &'static str, excluded_known: u64 }
 
 #[derive(Clone)]
 pub struct Known { pub property: String, pub signature: String, pub status: String, pub what: String }
@@ -172,6 +172,7 @@ impl Ctx {
     pub fn pbt<C, S>(&self, sub: &str, cases: u64, strat: impl Fn() -> S + Sync, check: impl Fn(&C) -> CheckResult + Sync)
     where C: std::fmt::Debug + Serialize + DeserializeOwned + Clone, S: Strategy<Value = C> {
         if self.run_saved(sub, &check) { return; }
+        let _timer = Timer { ctx: self, sub: sub.to_string(), t0: Instant::now() };
         { self.stats.lock().unwrap().entry(sub.to_string()).or_default().kind = "pbt"; }
         let workers = self.jobs.min(cases.max(1) as usize).max(1);
         let stop = AtomicBool::new(false);
@@ -221,6 +222,7 @@ impl Ctx {
     pub fn sse<C>(&self, sub: &str, space: &str, total: usize, make: impl Fn(usize) -> C + Sync, check: impl Fn(&C) -> CheckResult + Sync)
     where C: std::fmt::Debug + Serialize + DeserializeOwned + Clone + Send {
         if self.run_saved(sub, &check) { return; }
+        let _timer = Timer { ctx: self, sub: sub.to_string(), t0: Instant::now() };
         { let mut st = self.stats.lock().unwrap(); let e = st.entry(sub.to_string()).or_default(); e.kind = "sse"; e.space = Some(match &e.space { Some(s) => format!("{}; {}", s, space), None => space.to_string() }); }
         let next = AtomicUsize::new(0);
         let first_fail = Mutex::new(None::<(usize, C, String)>);
@@ -284,7 +286,7 @@ impl Ctx {
         let mut exhaustive_all: Option<bool> = None; let mut excluded = 0u64;
         for (name, s) in st.iter() {
             for x in &s.samples { let mut x = x.clone(); x["sub"] = json!(name); samples.push(x); }
-            let mut o = json!({"kind": s.kind, "evaluations": s.evaluations, "nontrivial": s.nontrivial, "replayed": s.replayed, "classes": s.classes});
+            let mut o = json!({"kind": s.kind, "wall_s": (s.wall_s * 100.0).round() / 100.0, "evaluations": s.evaluations, "nontrivial": s.nontrivial, "replayed": s.replayed, "classes": s.classes});
             if let Some(e) = s.exhaustive { o["exhaustive"] = json!(e); o["space"] = json!(s.space); if s.kind == "sse" { exhaustive_all = Some(exhaustive_all.unwrap_or(true) && e); } }
             if s.kind == "pbt" { exhaustive_all = Some(false); }
             excluded += s.excluded_known;
@@ -314,6 +316,9 @@ impl Ctx {
         if viol.is_empty() { 0 } else { for (p, _) in viol.iter() { println!("VIOLATION property={} replay={}", self.id, p); } 1 }
     }
 }
+
+struct Timer<'a> { ctx: &'a Ctx, sub: String, t0: Instant }
+impl<'a> Drop for Timer<'a> { fn drop(&mut self) { let mut st = self.ctx.stats.lock().unwrap(); st.entry(self.sub.clone()).or_default().wall_s += self.t0.elapsed().as_secs_f64(); } }
 
 pub static RULES: Mutex<BTreeMap<String, String>> = Mutex::new(BTreeMap::new());
 pub fn set_rule(id: &str, rule: &str) { RULES.lock().unwrap().insert(id.into(), rule.into()); }
